@@ -41,3 +41,49 @@ package registry
 //@   loop 1 invariant untouched: forall(k, 0 <= k && k < len(a) && (k <= i || (len(a)/2 - 1 < k && k < len(a) - len(a)/2) || len(a)-1-i <= k) ==> a[k] == old(a[k]))
 //@   loop 1 decreases i + 1
 //@   ensures reversed: forall(k, 0 <= k && k < len(a) ==> a[k] == old(a[len(a)-1-k]))
+
+//@ func registry.pkgInfoFromPath -> pkg, err
+//@   trusted packages.Load (go list + type checker) is a dependency: A-load; only the shape of the result is assumed
+//@   effect fs-read
+//@   ensures err == nil ==> pkg != nil && pkg.Types != nil
+//@   ensures err != nil ==> pkg == nil
+
+//@ func registry.parseImportsAliases -> aliases
+//@   trusted iterates go/ast values of the loaded package; contract assumed for now (C11 alias harvesting)
+//@   ensures aliases != nil
+
+//@ func registry.New -> r, err
+//@   props C10 C18
+//@   safety C19
+//@   effect fs-read
+//@   ensures{C19} load-error: forallEv(i, evIs(i, "call:registry.pkgInfoFromPath") && forallEv(j, j < i ==> !evIs(j, "call:registry.pkgInfoFromPath")) ==> evArg(i, 0) == srcDir && (evRes(i, 1) != nil ==> r == nil && err != nil && hasPrefix(uf("errMsg", String, err), "couldn't load source package: ")))
+//@   ensures{C17,C19} error-means-nil: err != nil ==> r == nil
+//@   ensures{C02} types-kept: err == nil ==> r.srcPkgTypes != nil
+//@   ensures{C10} fresh-registry: err == nil ==> r != nil && fresh(r) && r.imports != nil && fresh(r.imports) && forall(string(k), !dom(r.imports, k))
+
+//@ func registry.Registry.LookupInterface -> iface, tparams, err
+//@   props C02 C09
+//@   safety C19
+//@   requires r.srcPkgTypes != nil
+//@   ensures{C19} not-found: r.srcPkgTypes.Scope().Lookup(name) == nil ==> iface == nil && tparams == nil && err != nil && uf("errMsg", String, err) == "interface not found: " + name
+//@   ensures{C19} not-interface: r.srcPkgTypes.Scope().Lookup(name) != nil && !isIface(r.srcPkgTypes.Scope().Lookup(name).Type()) ==> iface == nil && err != nil && hasPrefix(uf("errMsg", String, err), name + " (") && hasSuffix(uf("errMsg", String, err), ") is not an interface")
+//@   ensures{C02} full-method-set: r.srcPkgTypes.Scope().Lookup(name) != nil && isIface(r.srcPkgTypes.Scope().Lookup(name).Type()) ==> err == nil && iface == as(r.srcPkgTypes.Scope().Lookup(name).Type().Underlying(), *types.Interface).Complete()
+//@   ensures{C09} type-params-of-named: err == nil && isType(r.srcPkgTypes.Scope().Lookup(name).Type(), *types.Named) ==> tparams == as(r.srcPkgTypes.Scope().Lookup(name).Type(), *types.Named).TypeParams()
+//@   ensures{C09} no-type-params-otherwise: err == nil && !isType(r.srcPkgTypes.Scope().Lookup(name).Type(), *types.Named) ==> tparams == nil
+//@   ensures{C19} result-or-error: err == nil ==> iface != nil
+//@ define isIface(t) = isType(t.Underlying(), *types.Interface)
+
+//@ func registry.Registry.AddImport -> imprt
+//@   trusted contract assumed here; its verification is tracked under C11 (registry invariants)
+//@   modifies H:registry.Package#, M:string:*registry.Package#
+//@   ensures imprt != nil ==> imprt.pkg != nil
+
+//@ func registry.Registry.Imports -> out
+//@   trusted contract assumed here; verified under C11/C14 below
+//@   modifies A:*registry.Package#
+
+//@ func registry.MethodScope.AddVar -> v
+//@   trusted contract assumed here; its verification is tracked under C12
+//@   modifies H:registry.Package#, M:string:*registry.Package#, H:registry.Var#, H:registry.MethodScope#, A:*registry.Var#, M:string:bool#
+//@   ensures v != nil && fresh(v) && v.vr == vr
+//@   ensures forall((*Var)(p), old(allocated(p)) ==> p.vr == old(p.vr))
